@@ -115,6 +115,66 @@ def check_translation(ctx, fi, self_cls):
                node=e.node, key="handler %s" % "/".join(e["types"]))
 
 
+
+def error_classes_forward_path(ctx, rule, model=None):
+    """An error class that defines its own __init__ hands the path on to ConstructError.__init__ on every path (positionally or as path=):
+    otherwise errors of that class lose `e.path` for exactly the calls the special case covers."""
+    M = model or ctx.model
+    n = 0
+    bad = []
+    for ci in M.classes.values():
+        if ci.name == "ConstructError" or not is_error_class(M, ci.name) or "__init__" not in ci.methods:
+            continue
+        fi = FuncInfo(ci.methods["__init__"], ci.relpath, cls=ci, qual="%s.__init__" % ci.name)
+        paths = paths_of(ctx, fi, ci.name) if model is None else None
+        if paths is None:
+            from ..core import Ctx
+            c2 = Ctx("C18", ctx.tier, M.root, model=M)
+            paths = paths_of(c2, fi, ci.name)
+        ok = bool(paths)
+        for p in paths:
+            if p.outcome[0] == "raise":
+                continue
+            sup = [e for e in p.events if e.kind == "SUPERCALL" and e["method"] == "__init__"]
+            ok = ok and len(sup) == 1 and (PATH in sup[0]["args"][1:2] or dict(sup[0]["kw"]).get("path") == PATH)
+        n += 1
+        if model is None:
+            ctx.ob(rule, fi, ok, "%s.__init__ hands its path argument on to ConstructError.__init__ on every path" % ci.name, key="path forwarded")
+        elif not ok:
+            bad.append(ci.name)
+    if model is None:
+        ctl = control_model("class ConstructError(Exception):\n    def __init__(self, message='', path=None):\n        self.path = path\n        super().__init__(message)\n"
+                            "class SizeofError(ConstructError):\n    def __init__(self, message='', path=None):\n        if message:\n            super().__init__(message, path)\n        else:\n            super().__init__('x')\n")
+        ctx.control(rule + " path forwarded", error_classes_forward_path(ctx, rule, model=ctl) == ["SizeofError"], "(error subclass dropping the path)")
+    return bad if model is not None else n
+
+
+def finally_masks(ctx, rule):
+    """No `finally` clause replaces an exception in flight by raising its own: the error of the member that failed (with its deeper path)
+    must reach the caller; a cleanup that can fail belongs on the success path, or inside its own handler."""
+    M = ctx.model
+    n = 0
+    for fi in M.all_functions():
+        if fi.relpath.endswith("debug.py") or not any(isinstance(x, ast.Try) and x.finalbody for x in ast.walk(fi.node)):
+            continue
+        n += 1
+        masked = None
+        for p in paths_of(ctx, fi, fi.cls.name if fi.cls is not None else None):
+            if p.outcome[0] != "raise":
+                continue
+            evs = p.events
+            for i, e in enumerate(evs):
+                if e.kind != "FINALLY":
+                    continue
+                inflight = [x for x in evs[:i] if x.raised and e["tid"] in [t if not isinstance(t, tuple) else t[0] for t in (x.trys or ())]]
+                caught = any(x.kind == "CATCH" and x["tid"] == e["tid"] for x in evs[:i])
+                later = [x for x in evs[i + 1:] if x.kind == "RAISE" and not x.a.get("reraised")]
+                if inflight and not caught and later:
+                    masked = later[0]
+        ctx.ob(rule, fi, masked is None, "%s: a finally clause raises while an exception from its try body is in flight, replacing it (and its path)" % fi.qual if masked is not None else "%s: no finally clause replaces an exception in flight" % fi.qual,
+               key="finally does not mask", node=masked.node if masked is not None else None)
+    return n
+
 def run(ctx):
     M = ctx.model
     # ---- R1
@@ -133,6 +193,7 @@ def run(ctx):
         elif none_branch:
             good = len(sup) == 1 and sup[0]["args"] == (("param", "message"),)
             ctx.ob("C18.R1", fi, good, "without a path the message is passed on unchanged", key="plain")
+    error_classes_forward_path(ctx, "C18.R1")
     ctx.floor("C18.R1", 3)
 
     # ---- R2
@@ -177,6 +238,7 @@ def run(ctx):
             check_translation(ctx, fi, self_cls)
     ctx.extra["sites"] = dict(stats)
     ctx.call_sites += stats["sub"] + stats["stream"]
+    finally_masks(ctx, "C18.R5")
     ctx.floor("C18.R4", 200)
     ctx.floor("C18.R5", 100)
     ctx.floor("C18.R6", 15)
@@ -195,6 +257,10 @@ def run(ctx):
     #      or hides it); shared with C06.R6
     for fi, cls in protocol_functions(M, C06.PARSE_SIDE):
         C06.check_seeks(ctx, fi, cls, rule="C18.R8")
+    # ... and a delimited region takes its bytes with stream_read (from_reading: tell, read `length`, wrap), so that a region cut short is
+    # reported by the member that owns it (shared with C08.R3)
+    from . import C08
+    C08.substream_class_checks(ctx, "C18.R8")
     ctx.floor("C18.R8", 10)
 
     # ---- the message of an error must be buildable for any offending object, or no ConstructError (and no path) is raised at all (shared with C06.R10)
